@@ -162,18 +162,42 @@ func Scan(rows Rows, db *DB, mode ScanMode) {
 			}
 			scanIntoMap(mapValue, values, columns)
 		}
-	case *[]map[string]interface{}:
+	case []map[string]interface{}, *[]map[string]interface{}:
+		var (
+			mapValues  []map[string]interface{}
+			ptr, isPtr = dest.(*[]map[string]interface{})
+		)
+		if isPtr {
+			mapValues = *ptr
+		} else {
+			mapValues, _ = dest.([]map[string]interface{})
+		}
+
 		columnTypes, _ := rows.ColumnTypes()
-		for initialized || rows.Next() {
+		for idx := 0; initialized || rows.Next(); idx++ {
 			prepareValues(values, db, columnTypes, columns)
 
 			initialized = false
 			db.RowsAffected++
 			db.AddError(rows.Scan(values...))
 
+			if update {
+				// rows returned for the maps that were just written (INSERT ... RETURNING):
+				// complete those maps in place, like the LastInsertId path does
+				if !onConflictDonothing && idx < len(mapValues) && mapValues[idx] != nil {
+					scanIntoMap(mapValues[idx], values, columns)
+				}
+				continue
+			}
+
+			if !isPtr {
+				db.AddError(ErrInvalidValue)
+				break
+			}
+
 			mapValue := map[string]interface{}{}
 			scanIntoMap(mapValue, values, columns)
-			*dest = append(*dest, mapValue)
+			*ptr = append(*ptr, mapValue)
 		}
 	case *int, *int8, *int16, *int32, *int64,
 		*uint, *uint8, *uint16, *uint32, *uint64, *uintptr,
